@@ -330,12 +330,13 @@ func (p *EdwardsPoint) Sub(a, b *EdwardsPoint) *EdwardsPoint {
 
 // Sum sets p to the sum of values, and returns p.
 func (p *EdwardsPoint) Sum(values []*EdwardsPoint) *EdwardsPoint {
-	p.Identity()
+	var sum EdwardsPoint
+	sum.Identity()
 	for _, v := range values {
-		p.Add(p, v)
+		sum.Add(&sum, v)
 	}
 
-	return p
+	return p.Set(&sum)
 }
 
 // Neg sets `p = -t`, and returns p.
